@@ -78,6 +78,11 @@ def gen_case(r, cid, source, chain, lens, big=False):
     elif term in ("find", "findix", "any", "all"):
         term = term + ":" + rnd_filf(r)
     ops = ["N:%d" % nt1, "%s:%d" % cs1] + stages + ["%s:%d" % cs2, "N:%d" % nt2]
+    if r.random() < 0.3:
+        # parameters set on the source only: they must govern everything downstream
+        ops = ops[:-2]
+        if term.startswith("red:") and nt1 != 1 and term.split(":")[1] in ("sub", "poly"):
+            term = "red:add"
     known = 1 if gen_harness.SOURCES[source][2] else 0
     sched = [r.randrange(0, 6) for _ in range(r.choice([0, 5, 20, 60]))]
     line = "id=%d shape=%s known=%d in=%s ops=%s term=%s avail=%d sched=%s fuel=100000" % (
@@ -177,12 +182,12 @@ def full_log_case(line):
     f = fields(line)
     t = f["term"].split(":")
     parts = f["ops"].split(";")
-    parts[-1] = "N:1"            # the terminal itself runs sequentially: no schedule involved
+    # a full terminal's call multiset does not depend on the schedule (theorem C05_calls_full)
     if t[0] in ("find", "findix", "any", "all"):
         parts.append(":".join(t[1:]))
     elif t[0] == "fe":
         parts.append("M:1:0")
-    return "id=%s shape=%s known=%s in=%s ops=%s term=cnt avail=%s sched=- fuel=10" % (
+    return "id=%s shape=%s known=%s in=%s ops=%s term=cnt avail=%s sched=- fuel=100000" % (
         f["id"], f["shape"], f["known"], f["in"], ";".join(parts), f["avail"])
 
 
@@ -277,7 +282,9 @@ def analyse(cases, impl, model, full):
         af, mf, ff = fields(a), fields(m), fields(fl)
         term = cf["term"].split(":")[0]
         ops = cf["ops"].split(";")
-        nt1, nt2 = nt_of(ops[0]), nt_of(ops[-1])
+        trail = ops[-1].startswith("N:")
+        nt1 = nt_of(ops[0])
+        nt2 = nt_of(ops[-1]) if trail else nt1
         cur.update({"term": term, "seq": nt2 == 1, "sites": mf.get("sites", "-")})
         out["dist"]["term_" + term] += 1
         out["dist"]["src_" + cf["shape"].split("_")[0]] += 1
@@ -377,7 +384,7 @@ def analyse(cases, impl, model, full):
                 sizes = [] if t[6][5:] == "-" else [int(x) for x in t[6][5:].split("/")]
                 if any(s != want for s in sizes):
                     oracle("C11", c, "Exact chunk size not handed to every worker", run)
-        cs2 = ops[-2].split(":")
+        cs2 = (ops[-2] if trail else ops[1]).split(":")
         n_eager = 0 if mf.get("sites", "-") == "-" else len(mf["sites"].split(","))
         if cs2[0] == "C" and int(cs2[1]) > 0 and len(runs) > n_eager and nt2 != 1:
             t = runs[-1].split(":")
